@@ -433,6 +433,9 @@ impl StorageEngine {
                 .get(kg)
                 .ok_or_else(|| StorageError::KnowledgeGraphNotFound(kg.to_string()))?;
             let db = db.read();
+            // Declared schemas are enforced for every caller, not only the handler's Insert arm
+            db.validate_tuples(relation, &tuples)
+                .map_err(StorageError::Other)?;
             if db.rule_exists(relation) {
                 return Err(StorageError::Other(format!(
                     "Cannot insert into '{relation}': it is a derived relation (view). \
